@@ -28,7 +28,7 @@ LEVEL_NOTE = "trusted: the harness's record of which dependencies it added"
 
 def runs(tier, seed):
     if tier == "thorough":
-        return [Run("clusterlin", cases=1200000, params={"exh": 8, "sub": 12, "log_n": 7}, timeout=3400)]
+        return [Run("clusterlin", cases=400000, params={"exh": 8, "sub": 12, "log_n": 7}, timeout=3400)]
     return [Run("clusterlin", cases=20000, params={"exh": 7, "sub": 11, "log_n": 8}, timeout=900)]
 
 
